@@ -377,6 +377,21 @@ def main():
             failing = None
             violations.append(dict(kind="search-error", detail=repr(e)))
 
+    if failing is None and spec.get("direct_keys"):
+        # for these observables a disagreement with the (proved) model IS the failing input:
+        # the history ends in a step where the real crate's is_terminated() / allocation count /
+        # queue content / link structure is not what the property demands
+        for m in corr["mismatches"]:
+            if m["key"] in spec["direct_keys"] and m.get("history"):
+                if m["key"] == "a" and m.get("observed") in ("0", ""):
+                    continue
+                parts = m["history"].split(";"); parts[2] = "A"; h = ";".join(parts)
+                fl = m["flavour"].split("@")[0]
+                obs = subprocess.run([HARNESS, fl], input=h + "\n", capture_output=True, text=True).stdout.strip()
+                model = subprocess.run([MODELRUN, "print", "-"], input=h + "\n", capture_output=True, text=True).stdout.strip()
+                failing = dict(history=h, flavour=fl, run=m.get("run"), key=m["key"], expected=m["expected"], observed=m["observed"],
+                               implementation_trace=obs.split(";"), model_trace=model.split(";"), klass="direct:" + m["key"])
+                break
     if failing is None:
         for p in extra_problems:
             if isinstance(p, dict) and p.get("failing_input") and p.get("rustc_accepts") is not False:
